@@ -1,6 +1,8 @@
 package main
 
 import (
+	"go/token"
+
 	"golang.org/x/tools/go/ssa"
 )
 
@@ -148,4 +150,132 @@ func loopInsts(g *Gate, s *Summary) []LoopInst {
 		}
 	}
 	return out
+}
+
+// AV is an SSA value in one activation of the evaluation.
+type AV struct {
+	Act *Summary
+	V   ssa.Value
+}
+
+// AEmission is an append of single elements found while tracing where a slice
+// value comes from.
+type AEmission struct {
+	Act   *Summary
+	Call  *ssa.Call
+	Elems []*E // nil: not an append of single elements
+	RC    Ref
+}
+
+// subAt returns the inlined activation of the call instruction site in act.
+func subAt(g *Gate, act *Summary, site ssa.Instruction) *Summary {
+	for _, sub := range g.Subs {
+		if sub.Parent == act && sub.Site == site {
+			return sub
+		}
+	}
+	return nil
+}
+
+// traceAppends follows a slice value backwards through φs, appends, helper
+// calls (inlined activations), their parameters and results, and collects the
+// append sites that contribute elements to it.  bases are the values the
+// trace stops at (loads, parameters of the top activation, opaque calls...).
+func traceAppends(g *Gate, start AV) (ems []AEmission, bases []AV) {
+	seen := map[AV]bool{}
+	var walk func(a AV, ret int)
+	walk = func(a AV, ret int) {
+		if a.V == nil || a.Act == nil || seen[a] {
+			return
+		}
+		seen[a] = true
+		switch v := a.V.(type) {
+		case *ssa.Phi:
+			for _, e := range v.Edges {
+				walk(AV{a.Act, e}, 0)
+			}
+		case *ssa.Extract:
+			if call, ok := v.Tuple.(*ssa.Call); ok {
+				if sub := subAt(g, a.Act, call); sub != nil {
+					for _, b := range sub.Fn.Blocks {
+						if r, ok := b.Instrs[len(b.Instrs)-1].(*ssa.Return); ok && v.Index < len(r.Results) {
+							walk(AV{sub, r.Results[v.Index]}, 0)
+						}
+					}
+					return
+				}
+			}
+			bases = append(bases, a)
+		case *ssa.Call:
+			if b, ok := v.Call.Value.(*ssa.Builtin); ok && b.Name() == "append" {
+				em := AEmission{Act: a.Act, Call: v, RC: a.Act.RC[v.Block()]}
+				if e := a.Act.Env[v]; e != nil && e.Op == "append" && e.Aux == "elems" {
+					em.Elems = e.Args[1:]
+				}
+				ems = append(ems, em)
+				walk(AV{a.Act, v.Call.Args[0]}, 0)
+				return
+			}
+			if sub := subAt(g, a.Act, v); sub != nil {
+				for _, b := range sub.Fn.Blocks {
+					if r, ok := b.Instrs[len(b.Instrs)-1].(*ssa.Return); ok && len(r.Results) > 0 {
+						walk(AV{sub, r.Results[0]}, 0)
+					}
+				}
+				return
+			}
+			bases = append(bases, a)
+		case *ssa.Parameter:
+			if a.Act.Parent != nil && a.Act.Site != nil {
+				if ci, ok := a.Act.Site.(ssa.CallInstruction); ok {
+					for i, p := range a.Act.Fn.Params {
+						if p == v && i < len(ci.Common().Args) {
+							walk(AV{a.Act.Parent, ci.Common().Args[i]}, 0)
+							return
+						}
+					}
+				}
+			}
+			bases = append(bases, a)
+		case *ssa.UnOp:
+			// load of a named result / local variable cell: the stores into the cell
+			if al, ok := v.X.(*ssa.Alloc); ok && v.Op == token.MUL {
+				if rs := al.Referrers(); rs != nil {
+					n := 0
+					for _, r := range *rs {
+						if st, ok := r.(*ssa.Store); ok && st.Addr == al {
+							n++
+							walk(AV{a.Act, st.Val}, 0)
+						}
+					}
+					if n > 0 {
+						return
+					}
+				}
+			}
+			bases = append(bases, a)
+		case *ssa.ChangeType:
+			walk(AV{a.Act, v.X}, 0)
+		case *ssa.Const:
+			// nil slice: contributes nothing
+		default:
+			bases = append(bases, a)
+		}
+	}
+	walk(start, 0)
+	return
+}
+
+// topBlockOf returns the block of the top-level function in which the
+// instruction ins of activation act executes (the block of the outermost call
+// site for instructions of inlined activations).
+func topBlockOf(act *Summary, ins ssa.Instruction) *ssa.BasicBlock {
+	if ins == nil {
+		return nil
+	}
+	for act != nil && act.Parent != nil && act.Site != nil {
+		ins = act.Site
+		act = act.Parent
+	}
+	return ins.Block()
 }
